@@ -173,7 +173,46 @@ func (w *world) submitted(from string, r *pb.Receipt) bool {
 }
 
 func chainName(c int) string { return fmt.Sprintf("chain%d", c) }
-func svcName(i int) string   { return fmt.Sprintf("chain%d:svc%d", i/10, i) }
+
+// service ids: "svc<i>" - except the ids 10c+8 and 10c+9, which are one contract-address-like id in its checksum
+// spelling and in lower case: two DIFFERENT services whose ids differ only in the case of their letters
+const caseID = "0xAbCdEf0123456789aBcDeF0123456789AbCdEf01"
+
+func sid(i int) string {
+	switch i % 10 {
+	case 8:
+		return caseID
+	case 9:
+		return strings.ToLower(caseID)
+	}
+	return fmt.Sprintf("svc%d", i)
+}
+
+// sidNum is the inverse of sid for a service of chain "chain<c>" (exact spelling; -1 = not one of ours)
+func sidNum(chain, s string) int {
+	if strings.HasPrefix(s, "svc") {
+		n, err := strconv.Atoi(s[3:])
+		if err != nil {
+			return -1
+		}
+		return n
+	}
+	if !strings.HasPrefix(chain, "chain") {
+		return -1
+	}
+	c, err := strconv.Atoi(chain[5:])
+	if err != nil {
+		return -1
+	}
+	if s == caseID {
+		return c*10 + 8
+	}
+	if s == strings.ToLower(caseID) {
+		return c*10 + 9
+	}
+	return -1
+}
+func svcName(i int) string { return fmt.Sprintf("chain%d:%s", i/10, sid(i)) }
 func (w *world) full(i int) string {
 	return w.bxh + ":" + svcName(i)
 }
@@ -272,7 +311,7 @@ func (w *world) doOp(op []json.RawMessage) (ok bool, out int, errText string) {
 		c, i, black := num(op[1]), num(op[2]), ints(op[3])
 		w.svcsOf[i] = true
 		adm := fmt.Sprintf("adm%d", c)
-		r := w.exec(adm, sm, "RegisterService", pb.String(chainName(c)), pb.String(fmt.Sprintf("svc%d", i)), pb.String(fmt.Sprintf("name-svc%d", i)),
+		r := w.exec(adm, sm, "RegisterService", pb.String(chainName(c)), pb.String(sid(i)), pb.String(fmt.Sprintf("name-svc%d", i)),
 			pb.String("CallContract"), pb.String("intro"), pb.Uint64(1), pb.String(w.permits(black)), pb.String("details"), pb.String("reason"))
 		return fin(adm, r)
 	case 3: // svcop ev i black
@@ -493,9 +532,8 @@ func (w *world) blackIDs(perm map[string]struct{}) []int {
 	out := []int{}
 	for p := range perm {
 		parts := strings.Split(p, ":")
-		if len(parts) == 3 && strings.HasPrefix(parts[2], "svc") {
-			n, _ := strconv.Atoi(parts[2][3:])
-			out = append(out, n)
+		if len(parts) == 3 && sidNum(parts[1], parts[2]) >= 0 {
+			out = append(out, sidNum(parts[1], parts[2]))
 		} else {
 			out = append(out, -1)
 		}
@@ -547,8 +585,7 @@ func (w *world) observe(o *stepOut) {
 			var ss []*servicemgr.Service
 			_ = json.Unmarshal(ret, &ss)
 			for _, s := range ss {
-				if strings.HasPrefix(s.ServiceID, "svc") {
-					n, _ := strconv.Atoi(s.ServiceID[3:])
+				if n := sidNum(chainName(c), s.ServiceID); n >= 0 {
 					regs[n] = true
 				}
 			}
@@ -590,8 +627,8 @@ func (w *world) observe(o *stepOut) {
 			}
 			parts := strings.Split(k, ":")
 			n := -1
-			if len(parts) == 2 && strings.HasPrefix(parts[1], "svc") {
-				n, _ = strconv.Atoi(parts[1][3:])
+			if len(parts) == 2 {
+				n = sidNum(parts[0], parts[1]) // the KEY as the executor spells it, not the id inside the record
 			}
 			ids = append(ids, n)
 			recs[n] = s
